@@ -221,7 +221,9 @@ def body(rng, ns, model, lang, big=False):
         t = "local p = {}\nfunction p.f(frame)\n  return \"" + rng.choice(["<b>", "&amp;", "x", "<!-- c -->", "<noinclude>n</noinclude>", "]]>"]) + \
             "\" .. (frame.args[1] or '') -- " + plain(rng, 2).replace("\n", " ") + "\nend\nreturn p" + rng.choice(["", "\n", "\n\n", " "])
     elif model == "json" and r < 0.6:
-        t = json.dumps({"k": plain(rng, 2), "n": [1, 2, {"<": "&"}], "é": " "}, ensure_ascii=rng.random() < 0.5,
+        t = json.dumps({"k": plain(rng, 2, incl_hostile=rng.random() < 0.6),
+                        "description": rng.choice(["wrap the documentation in <noinclude> tags", "<!-- not a comment -->", "plain",
+                                                   "<includeonly>x</includeonly>", "<onlyinclude>"]), "n": [1, 2, {"<": "&"}], "é": " "}, ensure_ascii=rng.random() < 0.5,
                        indent=rng.choice([None, 1, "\t"]))
     else:
         t = plain(rng, rng.randint(1, 12), incl_hostile=rng.random() < 0.5)
@@ -258,6 +260,9 @@ def pick_model(rng, lang, ns):
         return "Scribunto" if r < 0.6 else ("json" if r < 0.8 else rng.choice(MODELS_KEPT + MODELS_DROPPED))
     if ns == 8:  # MediaWiki:
         return rng.choice(["wikitext", "css", "javascript", "json", "sanitized-css"])
+    if ns == 10:
+        # Template namespace: mostly wikitext, now and then data / code pages (Template:Foo/data.json, TemplateStyles css)
+        return "wikitext" if r < 0.8 else "json" if r < 0.88 else "Scribunto" if r < 0.93 else rng.choice(MODELS_KEPT + MODELS_DROPPED)
     if r < 0.8:
         return "wikitext"
     return rng.choice(MODELS_KEPT + MODELS_DROPPED)
@@ -278,7 +283,7 @@ def make_page(rng, lang, ns, uid, big=False, force=None):
         redirect = tgt
         text = rng.choice(["#REDIRECT [[%s]]", "#redirect [[%s]]\n", "#REDIRECT[[%s]] {{R from}}"]) % tgt
         feats.add("redirect")
-    elif ns == 10:
+    elif ns == 10 and model == "wikitext":
         text, incl, f = template_body(rng)
         feats |= {"tbody:" + x for x in f}
     else:
